@@ -53,6 +53,273 @@ enum Job {
     GvarTies(u64),
     /// the same kind of ties arising naturally: deltas of symmetric outlines run through iup_delta_optimize  (seed)
     GvarIup(u64),
+    /// the SIBLING of a job: same shapes / sizes / layout, a few different content values (salt 1)
+    Sib(Box<Job>),
+    /// a font file (font-test-data font `fi`, or its same-length sibling with a few content bytes of table `kind`
+    /// changed) processed by `op`: "subset" (klippa::subset_font asking for the code points the edit touches),
+    /// "fontbuilder" (write-fonts: recompiled cmap/name/OS2/GPOS/GSUB + copied tables), "tables" (to_owned_table + dump_table)
+    BufFont { fi: usize, kind: &'static str, sib: bool, op: &'static str },
+    /// IFT client: table-keyed patch applied to a base font whose patched tables carry content `variant`
+    Ift(u8),
+}
+
+const SIB_KINDS: [&str; 5] = ["cmap", "hmtx", "OS/2", "name", "head"];
+const FONT_OPS: [&str; 3] = ["subset", "fontbuilder", "tables"];
+
+/// (offset, length) of table `tag` in an sfnt
+fn find_table(font: &[u8], tag: &[u8; 4]) -> Option<(usize, usize)> {
+    let n = u16::from_be_bytes([*font.get(4)?, *font.get(5)?]) as usize;
+    for i in 0..n {
+        let r = font.get(12 + 16 * i..28 + 16 * i)?;
+        if &r[0..4] == tag {
+            let off = u32::from_be_bytes([r[8], r[9], r[10], r[11]]) as usize;
+            let len = u32::from_be_bytes([r[12], r[13], r[14], r[15]]) as usize;
+            if off + len <= font.len() {
+                return Some((off, len));
+            }
+        }
+    }
+    None
+}
+
+/// a SIBLING of `font`: identical length and table layout, a few content bytes of one table changed.
+/// Returns the sibling and the code points whose mapping the edit touches (cmap edits: the first code point of up to
+/// three segments / groups is unmapped in the sibling).
+fn sibling_font(font: &[u8], kind: &str) -> Option<(Vec<u8>, Vec<u32>)> {
+    let mut out = font.to_vec();
+    let mut touched = vec![];
+    let rd16 = |b: &[u8], o: usize| -> Option<usize> { Some(u16::from_be_bytes([*b.get(o)?, *b.get(o + 1)?]) as usize) };
+    let rd32 = |b: &[u8], o: usize| -> Option<usize> { Some(u32::from_be_bytes([*b.get(o)?, *b.get(o + 1)?, *b.get(o + 2)?, *b.get(o + 3)?]) as usize) };
+    match kind {
+        "cmap" => {
+            let (off, len) = find_table(font, b"cmap")?;
+            let t = font.get(off..off + len)?;
+            let n = rd16(t, 2)?;
+            let mut seen = vec![];
+            for i in 0..n {
+                let so = rd32(t, 4 + 8 * i + 4)?;
+                if seen.contains(&so) {
+                    continue;
+                }
+                seen.push(so);
+                match rd16(t, so)? {
+                    4 => {
+                        let segs = rd16(t, so + 6)? / 2;
+                        let (ends, starts, ranges) = (so + 14, so + 16 + 2 * segs, so + 16 + 6 * segs);
+                        let mut edits = 0;
+                        for sgi in 0..segs {
+                            let (st, en, ro) = (rd16(t, starts + 2 * sgi)?, rd16(t, ends + 2 * sgi)?, rd16(t, ranges + 2 * sgi)?);
+                            if st < en && en != 0xffff && ro == 0 && edits < 3 {
+                                // startCode += 1, idDelta -= 1 would keep the other mappings; we keep idDelta, so the
+                                // remaining code points of the segment keep their glyphs and `st` becomes unmapped
+                                out[off + starts + 2 * sgi..off + starts + 2 * sgi + 2].copy_from_slice(&((st + 1) as u16).to_be_bytes());
+                                touched.push(st as u32);
+                                edits += 1;
+                            }
+                        }
+                    }
+                    12 => {
+                        let groups = rd32(t, so + 12)?;
+                        let mut edits = 0;
+                        for gi in 0..groups {
+                            let g = so + 16 + 12 * gi;
+                            let (st, en, gid) = (rd32(t, g)?, rd32(t, g + 4)?, rd32(t, g + 8)?);
+                            if st < en && edits < 3 {
+                                out[off + g..off + g + 4].copy_from_slice(&((st + 1) as u32).to_be_bytes());
+                                out[off + g + 8..off + g + 12].copy_from_slice(&((gid + 1) as u32).to_be_bytes());
+                                touched.push(st as u32);
+                                edits += 1;
+                            }
+                        }
+                    }
+                    _ => {}
+                }
+            }
+        }
+        "hmtx" => {
+            let (off, len) = find_table(font, b"hmtx")?;
+            if len < 4 {
+                return None;
+            }
+            let adv = rd16(font, off)?;
+            out[off..off + 2].copy_from_slice(&(if adv < 0xffff { adv + 1 } else { adv - 1 } as u16).to_be_bytes());
+        }
+        "OS/2" => {
+            let (off, len) = find_table(font, b"OS/2")?;
+            if len < 4 {
+                return None;
+            }
+            out[off + 3] ^= 1; // xAvgCharWidth
+        }
+        "name" => {
+            let (off, len) = find_table(font, b"name")?;
+            let t = font.get(off..off + len)?;
+            let (count, storage) = (rd16(t, 2)?, rd16(t, 4)?);
+            let mut done = false;
+            for i in 0..count {
+                let r = 6 + 12 * i;
+                let (platform, l, o) = (rd16(t, r)?, rd16(t, r + 8)?, rd16(t, r + 10)?);
+                if platform == 3 && l >= 2 && !done {
+                    // UTF-16BE: bump the first ASCII letter
+                    for c in (0..l).step_by(2) {
+                        let p = storage + o + c;
+                        if p + 1 < len && t[p] == 0 && (b'a'..b'y').contains(&t[p + 1]) {
+                            out[off + p + 1] += 1;
+                            done = true;
+                            break;
+                        }
+                    }
+                }
+            }
+            if !done {
+                return None;
+            }
+        }
+        "head" => {
+            let (off, len) = find_table(font, b"head")?;
+            if len < 36 {
+                return None;
+            }
+            out[off + 27] ^= 1; // `created`, low byte
+        }
+        _ => return None,
+    }
+    if out == font {
+        return None;
+    }
+    Some((out, touched))
+}
+
+/// code points a BufFont job asks for (a function of font and kind only: the same for a font and its sibling)
+fn buf_unicodes(fi: usize, kind: &str) -> Vec<u32> {
+    let mut u = vec![0x20u32, 0x41, 0x61, 0x627];
+    if let Some((_, touched)) = sibling_font(fonts()[fi].1, kind) {
+        u.extend(touched);
+    }
+    u
+}
+
+/// the work of a BufFont job on font bytes living wherever the caller put them
+fn font_op(data: &[u8], op: &str, unicodes: &[u32]) -> Vec<u8> {
+    let font = match FontRef::new(data) {
+        Ok(f) => f,
+        Err(e) => return err_bytes("fontref", e),
+    };
+    match op {
+        "subset" => {
+            use klippa::{subset_font, Plan, SubsetFlags};
+            use write_fonts::read::collections::IntSet;
+            let mut gids: IntSet<write_fonts::types::GlyphId> = IntSet::empty();
+            gids.insert(write_fonts::types::GlyphId::new(1));
+            let mut us: IntSet<u32> = IntSet::empty();
+            for c in unicodes {
+                us.insert(*c);
+            }
+            let empty_tags: IntSet<write_fonts::types::Tag> = IntSet::empty();
+            let mut all_tags: IntSet<write_fonts::types::Tag> = IntSet::empty();
+            all_tags.invert();
+            let mut name_ids: IntSet<write_fonts::types::NameId> = IntSet::empty();
+            for i in 0..7u16 {
+                name_ids.insert(write_fonts::types::NameId::new(i));
+            }
+            let mut langs: IntSet<u16> = IntSet::empty();
+            langs.insert(0x0409);
+            let plan = Plan::new(&gids, &us, &font, SubsetFlags::default(), &empty_tags, &all_tags, &all_tags, &name_ids, &langs);
+            subset_font(&font, &plan).unwrap_or_else(|e| err_bytes("subset", format!("{e:?}")))
+        }
+        "fontbuilder" => {
+            let mut b = FontBuilder::new();
+            macro_rules! recompile {
+                ($get:ident, $ty:ty) => {
+                    if let Ok(t) = font.$get() {
+                        let o: $ty = t.to_owned_table();
+                        let _ = b.add_table(&o);
+                    }
+                };
+            }
+            recompile!(cmap, write_fonts::tables::cmap::Cmap);
+            recompile!(name, write_fonts::tables::name::Name);
+            recompile!(os2, write_fonts::tables::os2::Os2);
+            recompile!(head, write_fonts::tables::head::Head);
+            recompile!(gpos, write_fonts::tables::gpos::Gpos);
+            recompile!(gsub, write_fonts::tables::gsub::Gsub);
+            b.copy_missing_tables(font);
+            b.build()
+        }
+        _ => {
+            let mut out = vec![];
+            macro_rules! conv {
+                ($get:ident, $ty:ty) => {
+                    match font.$get() {
+                        Ok(t) => {
+                            let o: $ty = t.to_owned_table();
+                            out.extend(dump_table(&o).unwrap_or_else(|e| err_bytes(stringify!($get), e)));
+                        }
+                        Err(_) => out.extend_from_slice(b"ABSENT"),
+                    }
+                    out.push(b'|');
+                };
+            }
+            conv!(cmap, write_fonts::tables::cmap::Cmap);
+            conv!(name, write_fonts::tables::name::Name);
+            conv!(os2, write_fonts::tables::os2::Os2);
+            conv!(head, write_fonts::tables::head::Head);
+            conv!(gdef, write_fonts::tables::gdef::Gdef);
+            if let Some((o, l)) = find_table(data, b"hmtx") {
+                out.extend_from_slice(&data[o..o + l.min(64)]);
+            }
+            out
+        }
+    }
+}
+
+/// IFT client on a base font built around font-test-data's table-keyed mapping + patch; the patched tables carry
+/// content `variant` (same lengths). Identity-framing decoder (output = dictionary ++ stream) so that the base
+/// table content flows into the result.
+fn ift_font(variant: u8) -> Vec<u8> {
+    use write_fonts::types::Tag;
+    let mut b = FontBuilder::new();
+    let t1: Vec<u8> = b"abcdef
+".iter().map(|c| if *c == b'f' { c + variant } else { *c }).collect();
+    let t2: Vec<u8> = b"foobar
+".iter().map(|c| if *c == b'r' { c + variant } else { *c }).collect();
+    b.add_raw(Tag::new(b"IFT "), font_test_data::ift::table_keyed_format2().as_slice().to_vec());
+    b.add_raw(Tag::new(b"tab1"), t1.clone());
+    b.add_raw(Tag::new(b"tab2"), t2.clone());
+    b.add_raw(Tag::new(b"tab4"), t1);
+    b.add_raw(Tag::new(b"tab5"), t2);
+    b.build()
+}
+struct FramingDecoder;
+impl shared_brotli_patch_decoder::SharedBrotliDecoder for FramingDecoder {
+    fn decode(&self, encoded: &[u8], dict: Option<&[u8]>, max: usize) -> Result<Vec<u8>, shared_brotli_patch_decoder::decode_error::DecodeError> {
+        let mut out = dict.map(|d| d.to_vec()).unwrap_or_default();
+        out.extend_from_slice(encoded);
+        out.truncate(max);
+        Ok(out)
+    }
+}
+fn ift_op(data: &[u8]) -> Vec<u8> {
+    use incremental_font_transfer::patch_group::{PatchGroup, UriStatus};
+    use incremental_font_transfer::patchmap::SubsetDefinition;
+    let font = match FontRef::new(data) {
+        Ok(f) => f,
+        Err(e) => return err_bytes("fontref", e),
+    };
+    let s = SubsetDefinition::codepoints([5].into_iter().collect());
+    let g = match PatchGroup::select_next_patches(font, &s) {
+        Ok(g) => g,
+        Err(e) => return err_bytes("ift-select", e),
+    };
+    let mut out: Vec<u8> = g.uris().collect::<Vec<_>>().join(",").into_bytes();
+    let patch = font_test_data::ift::table_keyed_patch().as_slice().to_vec();
+    let mut data: std::collections::HashMap<String, UriStatus> = g.uris().map(|u| (u.to_string(), UriStatus::Pending(patch.clone()))).collect();
+    out.push(b'|');
+    match g.apply_next_patches_with_decoder(&mut data, &FramingDecoder) {
+        Ok(f) => out.extend(f),
+        Err(e) => out.extend(err_bytes("ift-apply", format!("{e:?}"))),
+    }
+    out
 }
 
 /// one lookup = list of subtables (first glyph, number of glyphs, glyph stride)
@@ -223,6 +490,7 @@ fn promo_case(spec: &PromoSpec, bytes: &[u8]) -> Option<(String, bool)> {
 fn hash_sensitive(j: &Job) -> bool {
     match j {
         Job::Builder(..) | Job::VarBuilder(..) | Job::TiedPromo(_) | Job::SharedCovGsub(_) | Job::Ivs(_) | Job::Gvar(_) | Job::GvarTies(_) | Job::GvarIup(_) | Job::BigGpos(..) | Job::SplitGpos(..) => true,
+        Job::Sib(j) => !matches!(**j, Job::Dag(_)) && hash_sensitive(j),
         Job::Dag(d) => d.has_width(4) && d.nodes.len() <= 12 && d.nodes[0].iter().filter(|i| matches!(i, c05gen::Item::Link(4, _))).count() >= 4,
         _ => false,
     }
@@ -403,7 +671,7 @@ const VAR_KINDS: [&str; 9] = ["singlepos", "pairglyphs", "pairclasses", "pairmix
 /// (by a per-job generator, i.e. a function of the job alone) from 10 shared + 6 builder-private regions, in its
 /// own order, so the first-seen region numbering of the shared VariationStoreBuilder depends on the order in which the
 /// builders visit their contents.
-fn var_builder_job(kind: &str, v: u32) -> Vec<u8> {
+fn var_builder_job(kind: &str, v: u32, salt: i16) -> Vec<u8> {
     use write_fonts::read::collections::IntSet;
     use write_fonts::tables::gpos::builders::{
         AnchorBuilder, CursivePosBuilder, MarkToBaseBuilder, MarkToLigBuilder, MarkToMarkBuilder, PairPosBuilder, SinglePosBuilder,
@@ -438,6 +706,8 @@ fn var_builder_job(kind: &str, v: u32) -> Vec<u8> {
         rng.shuffle(&mut idx);
         idx.into_iter().take(k).map(|i| (pool[i].clone(), 1 + rng.below(90) as i16 - 45)).map(|(r, d)| (r, if d == 0 { 7 } else { d })).collect()
     }
+    // sibling: every delta one further away from zero (never zero: the delta sets keep their shape)
+    let sd = move |d: Vec<(VariationRegion, i16)>| -> Vec<(VariationRegion, i16)> { d.into_iter().map(|(r, x)| (r, x + x.signum() * salt)).collect() };
     let gset = |it: &mut dyn Iterator<Item = u16>| -> IntSet<GlyphId16> {
         let mut s = IntSet::empty();
         for x in it {
@@ -453,10 +723,10 @@ fn var_builder_job(kind: &str, v: u32) -> Vec<u8> {
         for k in 0..18u16 {
             let mut r = ValueRecordBuilder::new().with_x_advance(10 + k as i16);
             if k % 3 != 2 {
-                r = r.with_x_advance_device(deltas(&mut rng, &pool, 0, v));
+                r = r.with_x_advance_device(sd(deltas(&mut rng, &pool, 0, v)));
             }
             if k % 4 == 1 {
-                r = r.with_y_placement(3).with_y_placement_device(deltas(&mut rng, &pool, 0, v));
+                r = r.with_y_placement(3).with_y_placement_device(sd(deltas(&mut rng, &pool, 0, v)));
             }
             b.insert(g(900 - 13 * k), r);
         }
@@ -467,8 +737,8 @@ fn var_builder_job(kind: &str, v: u32) -> Vec<u8> {
         if kind != "pairclasses" {
             for k in 0..8u16 {
                 for j in 0..3u16 {
-                    let r1 = ValueRecordBuilder::new().with_x_advance(-(k as i16) - 1).with_x_advance_device(deltas(&mut rng, &pool, 1, v));
-                    let r2 = if (k + j) % 3 == 0 { ValueRecordBuilder::new().with_x_placement(2).with_x_placement_device(deltas(&mut rng, &pool, 1, v)) } else { ValueRecordBuilder::new() };
+                    let r1 = ValueRecordBuilder::new().with_x_advance(-(k as i16) - 1).with_x_advance_device(sd(deltas(&mut rng, &pool, 1, v)));
+                    let r2 = if (k + j) % 3 == 0 { ValueRecordBuilder::new().with_x_placement(2).with_x_placement_device(sd(deltas(&mut rng, &pool, 1, v))) } else { ValueRecordBuilder::new() };
                     b.insert_pair(g(700 - 31 * k), r1, g(40 + 5 * j + k), r2);
                 }
             }
@@ -484,15 +754,15 @@ fn var_builder_job(kind: &str, v: u32) -> Vec<u8> {
                         continue;
                     }
                     let c2 = gset(&mut (0..=(j % 2)).map(|i| 2000 + j * 10 + i));
-                    let r1 = ValueRecordBuilder::new().with_x_advance(-10 - k as i16).with_x_advance_device(deltas(&mut rng, &pool, 2, v));
-                    let r2 = if j == 1 { ValueRecordBuilder::new().with_x_advance(1).with_x_advance_device(deltas(&mut rng, &pool, 2, v)) } else { ValueRecordBuilder::new() };
+                    let r1 = ValueRecordBuilder::new().with_x_advance(-10 - k as i16).with_x_advance_device(sd(deltas(&mut rng, &pool, 2, v)));
+                    let r2 = if j == 1 { ValueRecordBuilder::new().with_x_advance(1).with_x_advance_device(sd(deltas(&mut rng, &pool, 2, v))) } else { ValueRecordBuilder::new() };
                     b.insert_classes(c1.clone(), r1, c2, r2);
                 }
             }
             for k in 0..4u16 {
                 let c1 = gset(&mut [1000 + k * 10, 1100 + k].into_iter());
                 let c2 = gset(&mut [2000u16, 2050 + k].into_iter());
-                b.insert_classes(c1, ValueRecordBuilder::new().with_x_advance(5).with_x_advance_device(deltas(&mut rng, &pool, 2, v)), c2, ValueRecordBuilder::new());
+                b.insert_classes(c1, ValueRecordBuilder::new().with_x_advance(5).with_x_advance_device(sd(deltas(&mut rng, &pool, 2, v))), c2, ValueRecordBuilder::new());
             }
         }
         lookups.push(PositionLookup::Pair(Lookup::new(LookupFlag::empty(), b.build(&mut vs))));
@@ -501,9 +771,9 @@ fn var_builder_job(kind: &str, v: u32) -> Vec<u8> {
         let a = AnchorBuilder::new(x, y);
         match rng.below(4) {
             0 => a,
-            1 => a.with_x_device(deltas(rng, &pool, site, v)),
-            2 => a.with_y_device(deltas(rng, &pool, site, v)),
-            _ => a.with_x_device(deltas(rng, &pool, site, v)).with_y_device(deltas(rng, &pool, site, v)),
+            1 => a.with_x_device(sd(deltas(rng, &pool, site, v))),
+            2 => a.with_y_device(sd(deltas(rng, &pool, site, v))),
+            _ => a.with_x_device(sd(deltas(rng, &pool, site, v))).with_y_device(sd(deltas(rng, &pool, site, v))),
         }
     };
     if all || kind == "cursive" {
@@ -615,7 +885,7 @@ fn gvar_tents(k: usize) -> Vec<write_fonts::tables::gvar::Tent> {
 /// explicit ties: m (2..3) distinct point sets of equal cardinality, each used r (2..3) times, tuples interleaved;
 /// plus controls (one set strictly more frequent, sets of different size, an all-points tuple).
 /// Returns the glyphs and the number of glyphs whose best candidates tie (2-way, 3-way).
-fn gvar_ties_glyphs(seed: u64) -> (Vec<write_fonts::tables::gvar::GlyphVariations>, [usize; 4]) {
+fn gvar_ties_glyphs(seed: u64, salt: i16) -> (Vec<write_fonts::tables::gvar::GlyphVariations>, [usize; 4]) {
     use write_fonts::tables::gvar::{GlyphDelta, GlyphDeltas, GlyphVariations};
     use write_fonts::types::GlyphId;
     let mut rng = Rng::new(seed ^ 0x6776_7469_6573);
@@ -650,7 +920,7 @@ fn gvar_ties_glyphs(seed: u64) -> (Vec<write_fonts::tables::gvar::GlyphVariation
         let mut tuples: Vec<Vec<GlyphDelta>> = uses
             .iter()
             .enumerate()
-            .map(|(k, si)| (0..npts).map(|i| if sets[*si].contains(&i) { GlyphDelta::required(3 + k as i16 + i as i16, -(k as i16) - 2 * i as i16) } else { GlyphDelta::optional(0, 0) }).collect())
+            .map(|(k, si)| (0..npts).map(|i| if sets[*si].contains(&i) { GlyphDelta::required(3 + k as i16 + i as i16 + salt, -(k as i16) - 2 * i as i16) } else { GlyphDelta::optional(0, 0) }).collect())
             .collect();
         if gid % 6 == 5 {
             tuples.push((0..npts).map(|i| GlyphDelta::required(i as i16, 1)).collect());
@@ -665,7 +935,7 @@ fn gvar_ties_glyphs(seed: u64) -> (Vec<write_fonts::tables::gvar::GlyphVariation
 /// ties arising from IUP: an outline of 2..3 congruent rectangles; a master either stretches ONE of the rectangles
 /// (its right edge moves, the left one stays) or moves one of them; two masters per rectangle. iup_delta_optimize
 /// decides which deltas are required, so the tuples of different rectangles get different, equally large point sets.
-fn gvar_iup_glyphs(seed: u64) -> (Vec<write_fonts::tables::gvar::GlyphVariations>, [usize; 4]) {
+fn gvar_iup_glyphs(seed: u64, salt: i16) -> (Vec<write_fonts::tables::gvar::GlyphVariations>, [usize; 4]) {
     use kurbo::{Point, Vec2};
     use write_fonts::tables::gvar::iup::iup_delta_optimize;
     use write_fonts::tables::gvar::{GlyphDelta, GlyphDeltas, GlyphVariations};
@@ -701,7 +971,7 @@ fn gvar_iup_glyphs(seed: u64) -> (Vec<write_fonts::tables::gvar::GlyphVariations
         let stretch = rng.chance(2, 3);
         let mut tuples: Vec<Vec<GlyphDelta>> = vec![];
         for (c, k) in order {
-            let amount = 10.0 + 7.0 * k as f64;
+            let amount = 10.0 + 7.0 * k as f64 + salt as f64;
             let mut deltas = vec![Vec2::ZERO; coords.len()];
             for i in 0..n_real {
                 if i / per == c {
@@ -884,8 +1154,47 @@ fn err_bytes(tag: &str, e: impl std::fmt::Display) -> Vec<u8> {
 }
 
 fn run_job(job: &Job) -> Result<Vec<u8>, String> {
+    run_job_salted(job, 0)
+}
+
+/// sibling of a DAG: every literal / run byte xor 1 (same sizes, same equalities between nodes)
+fn dag_sibling(d: &Dag) -> Dag {
+    Dag {
+        nodes: d
+            .nodes
+            .iter()
+            .map(|n| {
+                n.iter()
+                    .map(|it| match it {
+                        c05gen::Item::Run(b, k) => c05gen::Item::Run(b ^ 1, *k),
+                        c05gen::Item::Lit(l) => c05gen::Item::Lit(l.iter().map(|b| b ^ 1).collect()),
+                        c05gen::Item::Link(a, b) => c05gen::Item::Link(*a, *b),
+                    })
+                    .collect()
+            })
+            .collect(),
+    }
+}
+
+/// `salt` 0 = the job itself, 1 = its sibling (same shapes, different content values)
+fn run_job_salted(job: &Job, salt: i16) -> Result<Vec<u8>, String> {
     let job = job.clone();
     catch(std::panic::AssertUnwindSafe(move || match &job {
+        Job::Sib(inner) => match run_job_salted(inner, 1) {
+            Ok(b) => b,
+            Err(p) => panic!("{}", p),
+        },
+        Job::BufFont { fi, kind, sib, op } => {
+            let data: Vec<u8> = if *sib { sibling_font(fonts()[*fi].1, kind).map(|x| x.0).unwrap_or_default() } else { fonts()[*fi].1.to_vec() };
+            font_op(&data, op, &buf_unicodes(*fi, kind))
+        }
+        Job::Ift(variant) => ift_op(&ift_font(*variant)),
+        Job::Dag(d) if salt != 0 => match compile(&dag_sibling(d)) {
+            Outcome::Bytes(b) => b,
+            Outcome::PackingFailed => b"ERR:PackingFailed".to_vec(),
+            Outcome::OtherErr(e) => err_bytes("other", e),
+            Outcome::Panic(p) => panic!("{}", p),
+        },
         Job::Dag(d) => match compile(d) {
             Outcome::Bytes(b) => b,
             Outcome::PackingFailed => b"ERR:PackingFailed".to_vec(),
@@ -950,6 +1259,7 @@ fn run_job(job: &Job) -> Result<Vec<u8>, String> {
                 for _ in 0..k {
                     let r = regions[rng.below(12) as usize].clone();
                     let v = *rng.pick(&[0i32, 1, -1, 5, 127, 128, -129, 300, 40000]);
+                    let v = v + v.signum() * salt as i32;
                     if !ds.iter().any(|(x, _): &(VariationRegion, i32)| *x == r) {
                         ds.push((r, v));
                     }
@@ -985,7 +1295,7 @@ fn run_job(job: &Job) -> Result<Vec<u8>, String> {
                     // a few shared delta shapes so that shared tuples / points get exercised
                     let shape = rng.below(4) as i16;
                     let deltas = (0..npts).map(|i| {
-                        if (i as i16 + shape) % 3 == 0 { GlyphDelta::optional(0, 0) } else { GlyphDelta::required(shape * 10 + i as i16, -(i as i16)) }
+                        if (i as i16 + shape) % 3 == 0 { GlyphDelta::optional(0, 0) } else { GlyphDelta::required(shape * 10 + i as i16 + salt, -(i as i16)) }
                     }).collect();
                     vars.push(GlyphDeltas::new(tents, deltas));
                 }
@@ -996,8 +1306,8 @@ fn run_job(job: &Job) -> Result<Vec<u8>, String> {
                 Err(e) => err_bytes("gvar-new", format!("{e:?}")),
             }
         }
-        Job::GvarTies(seed) => gvar_bytes(gvar_ties_glyphs(*seed).0),
-        Job::GvarIup(seed) => gvar_bytes(gvar_iup_glyphs(*seed).0),
+        Job::GvarTies(seed) => gvar_bytes(gvar_ties_glyphs(*seed, salt).0),
+        Job::GvarIup(seed) => gvar_bytes(gvar_iup_glyphs(*seed, salt).0),
         Job::BuildFont(fi) => {
             let font = FontRef::new(fonts()[*fi].1).unwrap();
             let mut b = FontBuilder::new();
@@ -1019,8 +1329,8 @@ fn run_job(job: &Job) -> Result<Vec<u8>, String> {
         }
         Job::Builder(kind, v) => builder_job(kind, *v),
         Job::SharedCovGsub(pairs) => shared_cov_gsub(*pairs),
-        Job::TiedPromo(spec) => spec.compile(),
-        Job::VarBuilder(kind, v) => var_builder_job(kind, *v),
+        Job::TiedPromo(spec) => PromoSpec { salt: spec.salt + salt as u16, ..spec.clone() }.compile(),
+        Job::VarBuilder(kind, v) => var_builder_job(kind, *v, salt),
         Job::Subset(fi, pick) => {
             use klippa::{subset_font, Plan, SubsetFlags};
             use write_fonts::read::collections::IntSet;
@@ -1062,6 +1372,9 @@ fn job_name(j: &Job) -> String {
         Job::Gvar(s) => format!("gvar:{s}"),
         Job::GvarTies(s) => format!("gvarties:{s}"),
         Job::GvarIup(s) => format!("gvariup:{s}"),
+        Job::Sib(j) => format!("sib:{}", job_name(j)),
+        Job::BufFont { fi, kind, sib, op } => format!("buffont:{}:{}:{}:{}", fonts()[*fi].0, kind, if *sib { "B" } else { "A" }, op),
+        Job::Ift(v) => format!("ift:{v}"),
         Job::BuildFont(f) => format!("fontbuilder:{}", fonts()[*f].0),
         Job::Subset(f, p) => format!("subset:{}:{}", fonts()[*f].0, p),
         Job::Builder(k, v) => format!("builder:{k}:{v}"),
@@ -1152,6 +1465,32 @@ fn make_jobs(seed: u64, thorough: bool) -> Vec<Job> {
     }
     jobs.push(Job::Ivs(1));
     jobs.push(Job::Ivs(2));
+    // round 5: siblings (same shapes / sizes, different content values) of the value-carrying job families
+    let sibs: Vec<Job> = jobs
+        .iter()
+        .enumerate()
+        .filter(|(i, j)| match j {
+            Job::Ivs(_) | Job::Gvar(_) | Job::GvarTies(_) | Job::GvarIup(_) | Job::VarBuilder(..) | Job::TiedPromo(_) => true,
+            Job::Dag(_) => i % 4 == 0,
+            _ => false,
+        })
+        .map(|(_, j)| Job::Sib(Box::new(j.clone())))
+        .collect();
+    jobs.extend(sibs);
+    // font files and their same-length siblings (one table's content edited), three consumers each
+    for fi in 0..fonts().len() {
+        for kind in SIB_KINDS {
+            if sibling_font(fonts()[fi].1, kind).is_none() {
+                continue;
+            }
+            for op in FONT_OPS {
+                jobs.push(Job::BufFont { fi, kind, sib: false, op });
+                jobs.push(Job::BufFont { fi, kind, sib: true, op });
+            }
+        }
+    }
+    jobs.push(Job::Ift(0));
+    jobs.push(Job::Ift(1));
     jobs
 }
 
@@ -1224,8 +1563,8 @@ fn main() {
     }
     for j in jobs.iter() {
         let (kind, t) = match j {
-            Job::GvarTies(s) => ("gvarties", gvar_ties_glyphs(*s).1),
-            Job::GvarIup(s) => ("gvariup", gvar_iup_glyphs(*s).1),
+            Job::GvarTies(s) => ("gvarties", gvar_ties_glyphs(*s, 0).1),
+            Job::GvarIup(s) => ("gvariup", gvar_iup_glyphs(*s, 0).1),
             _ => continue,
         };
         st.add(&format!("{kind}.glyphs_no_shared_candidate"), t[0] as u64);
@@ -1354,6 +1693,112 @@ fn main() {
         }
     }
 
+    // (e) NEAR-IDENTICAL prior work in the SAME REUSED BUFFER: font A is loaded into a Vec and processed, the very same
+    //     Vec is overwritten in place with the same-length sibling B (same address, same length, a few content bytes
+    //     differ) and processed, and back; then a dropped-and-reallocated buffer of the same size (the allocator usually
+    //     hands the block out again). Every result must equal the reference of that (font, op) — which was also
+    //     obtained in fresh child processes in (d). Run on this thread and on a fresh thread.
+    {
+        let index: std::collections::HashMap<String, usize> = jobs.iter().enumerate().map(|(i, j)| (job_name(j), i)).collect();
+        let run_buffers = |jobs: &[Job], reference: &[String]| -> (Vec<(usize, String)>, u64, u64) {
+            let mut bad = vec![];
+            let (mut count, mut same_addr) = (0u64, 0u64);
+            let mut check = |data: &[u8], fi: usize, kind: &'static str, sib: bool, how: &str| {
+                let unicodes = buf_unicodes(fi, kind);
+                for op in FONT_OPS {
+                    let name = job_name(&Job::BufFont { fi, kind, sib, op });
+                    let Some(&i) = index.get(&name) else { continue };
+                    let d = digest(&catch(std::panic::AssertUnwindSafe(|| font_op(data, op, &unicodes))));
+                    count += 1;
+                    if d != reference[i] {
+                        bad.push((i, format!("{how}: {d}")));
+                    }
+                }
+            };
+            for fi in 0..fonts().len() {
+                for kind in SIB_KINDS {
+                    let a = fonts()[fi].1;
+                    let Some((b, _)) = sibling_font(a, kind) else { continue };
+                    // one buffer, overwritten in place; both orders, each starting in its own buffer (the second one is
+                    // allocated while the first is still alive, so it is a different block: whatever a cache keyed by
+                    // address remembered about the first buffer does not apply to it)
+                    let mut buf: Vec<u8> = a.to_vec();
+                    for (step, sib) in [false, true, false, true, true, false].into_iter().enumerate() {
+                        buf.copy_from_slice(if sib { &b } else { a });
+                        check(&buf, fi, kind, sib, &format!("same buffer overwritten in place (A first), step {step} ({})", if sib { "B after A" } else { "A after B" }));
+                    }
+                    let mut buf2: Vec<u8> = b.clone();
+                    for (step, sib) in [true, false, true, false, false, true].into_iter().enumerate() {
+                        buf2.copy_from_slice(if sib { &b } else { a });
+                        check(&buf2, fi, kind, sib, &format!("same buffer overwritten in place (B first), step {step} ({})", if sib { "B after A" } else { "A after B" }));
+                    }
+                    drop(buf2);
+                    // dropped and reallocated blocks of the same size
+                    let mut last_addr = buf.as_ptr() as usize;
+                    drop(buf);
+                    for (step, sib) in [true, false, true, false].into_iter().enumerate() {
+                        let fresh: Vec<u8> = if sib { b.clone() } else { a.to_vec() };
+                        if fresh.as_ptr() as usize == last_addr {
+                            same_addr += 1;
+                        }
+                        last_addr = fresh.as_ptr() as usize;
+                        check(&fresh, fi, kind, sib, &format!("reallocated buffer of the same size, step {step}"));
+                        drop(fresh);
+                    }
+                }
+            }
+            // IFT client, same pattern
+            let (fa, fb) = (ift_font(0), ift_font(1));
+            if fa.len() == fb.len() {
+                for order in [[0u8, 1, 0, 1, 1, 0], [1, 0, 1, 0, 0, 1]] {
+                    let mut buf = fa.clone();
+                    for (step, v) in order.into_iter().enumerate() {
+                        buf.copy_from_slice(if v == 1 { &fb } else { &fa });
+                        if let Some(&i) = index.get(&format!("ift:{v}")) {
+                            let d = digest(&catch(std::panic::AssertUnwindSafe(|| ift_op(&buf))));
+                            count += 1;
+                            if d != reference[i] {
+                                bad.push((i, format!("IFT base overwritten in place, step {step}: {d}")));
+                            }
+                        }
+                    }
+                }
+            }
+            let _ = jobs;
+            (bad, count, same_addr)
+        };
+        let (mut bad, mut count, mut same_addr) = run_buffers(&jobs, &reference);
+        // and on a fresh thread (its thread-locals start empty, its allocations come from another arena)
+        let (bad2, count2, same2) = std::thread::scope(|sc| sc.spawn(|| run_buffers(&jobs, &reference)).join().unwrap());
+        bad.extend(bad2);
+        count += count2;
+        same_addr += same2;
+        st.evaluations += count;
+        st.add("experiment.same_buffer_sibling", count);
+        st.add("experiment.same_buffer_realloc_same_address", same_addr);
+        for (i, how) in bad {
+            note(job_name(&jobs[i]), format!("{how} vs reference {}", reference[i]), &mut disagreements);
+        }
+    }
+
+    // (e2) the sibling of a job immediately before it on the same thread (and the reverse)
+    {
+        let index: std::collections::HashMap<String, usize> = jobs.iter().enumerate().map(|(i, j)| (job_name(j), i)).collect();
+        for (si, j) in jobs.iter().enumerate() {
+            let Job::Sib(inner) = j else { continue };
+            let Some(&ii) = index.get(&job_name(inner)) else { continue };
+            for (first, second) in [(si, ii), (ii, si), (si, ii)] {
+                let _ = run_job(&jobs[first]);
+                let d = digest(&run_job(&jobs[second]));
+                st.evaluations += 2;
+                st.count("experiment.sibling_immediately_before");
+                if d != reference[second] {
+                    note(job_name(&jobs[second]), format!("right after its sibling {}: {} vs reference {}", job_name(&jobs[first]), d, reference[second]), &mut disagreements);
+                }
+            }
+        }
+    }
+
     for (name, hows) in &disagreements {
         let class = name.split(':').next().unwrap_or("dag").to_string();
         st.oracle_failure(json!({"key": format!("nondeterministic:{}", if class.starts_with("dag-") { name.clone() } else { name.clone() }), "job": name, "disagreements": hows.iter().take(4).collect::<Vec<_>>(), "n": hows.len()}));
@@ -1468,6 +1913,6 @@ fn main() {
     let shards = cw.finish();
     st.v.insert("shards".into(), shards.into());
     st.v.insert("model_cases".into(), cw.len().into());
-    st.write(&dir, "jobs = generated object DAGs (incl. space assignment/duplication path), real GPOS/GSUB/GDEF/gvar/name/cmap/HVAR/fvar tables of 5 test fonts, synthetic GPOS forcing splitting/promotion, overflowing GSUB/GPOS with equal-score lookups (promotion cut-off inside a tie; promoted set also predicted by the Coq model of select_promotions_hb), variable GPOS through the public builders sharing one VariationStoreBuilder (heterogeneous regions per value), gvar with 2-/3-way tied private point sets (explicit and IUP-derived; shared point numbers read back from the bytes and predicted by the Coq model of compute_shared_points), VariationStoreBuilder, FontBuilder::build, klippa::subset_font; each compiled as reference, after random unrelated compilations, on 1/2/3/4/8/16 threads with randomised start, and in fresh child processes; non-trivial = distinct job");
+    st.write(&dir, "jobs = generated object DAGs (incl. space assignment/duplication path), real GPOS/GSUB/GDEF/gvar/name/cmap/HVAR/fvar tables of 5 test fonts, synthetic GPOS forcing splitting/promotion, overflowing GSUB/GPOS with equal-score lookups (promotion cut-off inside a tie; promoted set also predicted by the Coq model of select_promotions_hb), variable GPOS through the public builders sharing one VariationStoreBuilder (heterogeneous regions per value), gvar with 2-/3-way tied private point sets (explicit and IUP-derived; shared point numbers read back from the bytes and predicted by the Coq model of compute_shared_points), VariationStoreBuilder, FontBuilder::build, klippa::subset_font, sibling jobs (same shapes, different values) and same-length sibling fonts processed from one reused buffer overwritten in place / reallocated (klippa subset, FontBuilder, table conversion, IFT table-keyed patch); each compiled as reference, after random unrelated compilations, on 1/2/3/4/8/16 threads with randomised start, and in fresh child processes; non-trivial = distinct job");
     println!("jobs={} cases={} shards={} oracle_failures={} disagreements={}", n, cw.len(), shards, st.oracle_failures.len(), disagreements.len());
 }
